@@ -48,7 +48,8 @@ type Val struct {
 	Tuple    []Val
 	Fn       *ssa.Function
 	Binds    []Val
-	KnownLen int // -1 unknown
+	KnownLen int  // -1 unknown
+	Origin   *Loc // a []byte value that views a whole local byte-array cell (read at use)
 }
 
 func tv(t Term) Val { return Val{T: t, KnownLen: -1} }
@@ -96,6 +97,7 @@ type Oblig struct {
 	Query   string
 	Canary  bool // must be refuted (vacuity guard)
 	Expected bool // listed in known_findings.jsonl as a recorded defect
+	FirstTry string // solver summary of the first attempt when the obligation was retried
 	Anc     map[int]bool // root-function blocks whose lines are relevant (nil = all)
 	Parts   []obPart     // when set, the obligation is the conjunction of these sub-goals
 	Values  []string // terms whose model values are requested
@@ -547,6 +549,10 @@ func (x *Exec) termOf(v Val) Term {
 		}
 		x.markA("interior or cell pointer used as a value")
 		return x.smt.fresh("ptr", "Int")
+	}
+	if v.Origin != nil {
+		// a []byte view of a whole local byte array: its current contents
+		return x.readLoc(v.Origin)
 	}
 	if v.T == "" {
 		if v.Fn != nil {
